@@ -17,6 +17,12 @@
 //              the result merely has to be non-finite too (libgcc's per-component inf/NaN choice is not a reference).
 //   trig-large: cos cosh sin sinh tan tanh with |part| in {20 .. 1e6} (cosh from ~1e8 to beyond overflow) as real resp.
 //              imaginary part while the other part sits at/next to odd multiples of pi/2, multiples of pi, or is ordinary.
+//   nonfinite-x-overflow: cos sin tan with real part +-inf/NaN and a FINITE imaginary part beyond the overflow threshold
+//              of cosh (100/1000/.../max), cosh sinh tanh mirrored; situation `real=inf,imag-beyond-cosh-overflow` etc.,
+//              deliberately not under the `special,` keys of the open Annex-G findings.
+//   aliasing : every compound operator and binary operator with the SAME object on both sides (z *= z, z = z / z ...) and
+//              with a scalar operand that is a reference to the object's own part (z *= get<0>(z)), over the moderate,
+//              extreme and random grids, against std::complex doing the same on its own object.
 //   random   : seeded, parts log-uniform in [2^-12, 2^5] with random signs (moderate domain); plus seeded extreme parts
 //              (exponent uniform over the overflow / underflow bands, label "extreme").
 // Enumerated case = (function, index of the real part); the imaginary part (and the second operand) range over the list.
@@ -164,7 +170,7 @@ char const* rclass(T v)
 struct Ctx {
     char const* subject;
     char const* op;
-    char const* stratum; // "moderate" | "special" | "extreme" | "trig-large" | "random"
+    char const* stratum; // "moderate" | "special" | "extreme" | "trig-large" | "nonfinite-x-overflow" | "random"
     std::uint64_t bound;
     std::uint64_t n = 0;
     std::uint64_t maxerr = 0;
@@ -195,6 +201,12 @@ void flush_crumb(Ctx& c)
         } else {
             std::snprintf(sit, sizeof sit, "special,z=(%s,%s)", part_class(a), part_class(b));
         }
+    } else if (std::strcmp(c.stratum, "nonfinite-x-overflow") == 0) {
+        // one part inf/NaN, the other FINITE and beyond the overflow threshold of cosh (own cells: not the Annex-G `special,` keys)
+        bool const re_special = !fp::is_finite(a);
+        T const sp            = re_special ? a : b;
+        std::snprintf(sit, sizeof sit, "%s=%s,%s-beyond-cosh-overflow", re_special ? "real" : "imag",
+            fp::is_nan(sp) ? "nan" : (fp::sign(sp) ? "-inf" : "inf"), re_special ? "imag" : "real");
     } else if (c.in_sub) {
         std::snprintf(sit, sizeof sit, "%s,%s", c.stratum, c.sub ? c.sub : "sub-domain");
     } else {
@@ -213,7 +225,7 @@ void set_crumb(Ctx& c, T a, T b, T p, T q, bool two)
     c.a = a, c.b = b, c.p = p, c.q = q, c.two = two;
     c.in_sub = false;
     c.sub    = nullptr;
-    if (std::strcmp(c.stratum, "special") != 0) {
+    if (std::strcmp(c.stratum, "special") != 0 && std::strcmp(c.stratum, "nonfinite-x-overflow") != 0) {
         if ((c.div_matters == 1 && fp::is_zero(p) && fp::is_zero(q)) || (c.div_matters == 2 && fp::is_zero(a) && fp::is_zero(b))) {
             c.sub = "divisor-zero";
         } else if (c.near_one_matters && std::hypot((W)a - 1, (W)b) < (W)0.0625) {
@@ -356,6 +368,44 @@ Fn const kFns[] = {
     BCC("add", "complex+complex", +) BCC("sub", "complex-complex", -) BCC("mul", "complex*complex", *) BCC("div", "complex/complex", /)
     BCT("add", "complex+T", +) BCT("sub", "complex-T", -) BCT("mul", "complex*T", *) BCT("div", "complex/T", /)
     BTC("add", "T+complex", +) BTC("sub", "T-complex", -) BTC("mul", "T*complex", *) BTC("div", "T/complex", /)
+    // ---- aliasing: the SAME object on both sides of a compound operator / binary operator, and a scalar operand that is a
+    // reference to one of the object's own parts (etl::get<I>(z); std side: the array-oriented access of [complex.numbers]/4)
+#define SELF(NAME, OPSTR, STD_STMT, ETL_STMT)                                                                          \
+    Fn{NAME "<complex<" VF_T_NAME ">>", OPSTR, U_C, false, [](Ctx& c, T a, T b, T, T) {                                  \
+           SC z_(fp::launder(a), fp::launder(b));                                                                      \
+           {                                                                                                           \
+               SC& z = z_;                                                                                             \
+               [[maybe_unused]] T(&part)[2] = reinterpret_cast<T(&)[2]>(z);                                             \
+               STD_STMT;                                                                                               \
+           }                                                                                                           \
+           set_crumb(c, a, b, 0, 0, false);                                                                            \
+           EC g_(fp::launder(a), fp::launder(b));                                                                      \
+           {                                                                                                           \
+               EC& z = g_;                                                                                             \
+               ETL_STMT;                                                                                               \
+           }                                                                                                           \
+           cmp_c(c, g_.real(), g_.imag(), z_.real(), z_.imag());                                                       \
+       }},
+    SELF("add", "z+=z (same object)", z += z, z += z)
+    SELF("sub", "z-=z (same object)", z -= z, z -= z)
+    SELF("mul", "z*=z (same object)", z *= z, z *= z)
+    SELF("div", "z/=z (same object)", z /= z, z /= z)
+    SELF("add", "z=z+z (same object)", z = z + z, z = z + z)
+    SELF("sub", "z=z-z (same object)", z = z - z, z = z - z)
+    SELF("mul", "z=z*z (same object)", z = z * z, z = z * z)
+    SELF("div", "z=z/z (same object)", z = z / z, z = z / z)
+    SELF("add", "z+=get<0>(z) (own real part by reference)", z += part[0], z += etl::get<0>(z))
+    SELF("add", "z+=get<1>(z) (own imaginary part by reference)", z += part[1], z += etl::get<1>(z))
+    SELF("sub", "z-=get<0>(z) (own real part by reference)", z -= part[0], z -= etl::get<0>(z))
+    SELF("sub", "z-=get<1>(z) (own imaginary part by reference)", z -= part[1], z -= etl::get<1>(z))
+    SELF("mul", "z*=get<0>(z) (own real part by reference)", z *= part[0], z *= etl::get<0>(z))
+    SELF("mul", "z*=get<1>(z) (own imaginary part by reference)", z *= part[1], z *= etl::get<1>(z))
+    SELF("div", "z/=get<0>(z) (own real part by reference)", z /= part[0], z /= etl::get<0>(z))
+    SELF("div", "z/=get<1>(z) (own imaginary part by reference)", z /= part[1], z /= etl::get<1>(z))
+    SELF("mul", "z=z*get<0>(z) (own real part by reference)", z = z * part[0], z = z * etl::get<0>(z))
+    SELF("mul", "z=get<1>(z)*z (own imaginary part by reference)", z = part[1] * z, z = etl::get<1>(z) * z)
+    SELF("div", "z=z/get<1>(z) (own imaginary part by reference)", z = z / part[1], z = z / etl::get<1>(z))
+    SELF("assign", "z=get<1>(z) (own imaginary part by reference)", z = part[1], z = etl::get<1>(z))
     Fn{"neg<complex<" VF_T_NAME ">>", "-complex", U_C, true,
         [](Ctx& c, T a, T b, T, T) {
             SC const r = -SC(fp::launder(a), fp::launder(b));
@@ -436,11 +486,12 @@ std::uint64_t n_mod_cases() { return (std::uint64_t)NF * moderate().size(); }
 std::uint64_t n_spec_cases() { return (std::uint64_t)NF * special().size(); }
 std::uint64_t n_ext_cases() { return (std::uint64_t)NF * extreme().size(); }
 std::uint64_t n_trig_cases() { return (std::uint64_t)NTRIG * 2; }
+std::uint64_t n_nfo_cases() { return NTRIG; } // nonfinite-x-overflow: one case per trig/hyperbolic function
 
 vf::Spec spec(vf::Tier t)
 {
     vf::Spec s;
-    s.n_enum     = n_mod_cases() + n_spec_cases() + n_ext_cases() + n_trig_cases() + 1;
+    s.n_enum     = n_mod_cases() + n_spec_cases() + n_ext_cases() + n_trig_cases() + n_nfo_cases() + 1;
     s.n_random   = (std::uint64_t)NF * (random_cases_per_fn(t) + random_extreme_cases_per_fn(t));
     s.batch      = VF_ASAN ? 64 : 16;
     s.timeout_s  = 600;
@@ -536,7 +587,7 @@ void run_case(vf::Case& c)
     Ctx x{};
     std::uint64_t h = vf::mix(c.index, c.enumerated ? 0xCC16 : vf::g().seed);
     std::uint64_t const o_spec = n_mod_cases(), o_ext = o_spec + n_spec_cases(), o_trig = o_ext + n_ext_cases(),
-                        o_facts = o_trig + n_trig_cases();
+                        o_nfo = o_trig + n_trig_cases(), o_facts = o_nfo + n_nfo_cases();
     if (c.enumerated && c.index == o_facts) {
         type_facts();
         return;
@@ -561,6 +612,36 @@ void run_case(vf::Case& c)
         x.stratum             = "extreme";
         if (fn.shape == EQ_CC || fn.shape == EQ_CT || !prepare(x, fn)) { return; }
         drive_row(x, fn, L, L[k % L.size()]);
+    } else if (c.enumerated && c.index >= o_nfo) {
+        // one part +-inf / NaN, the other finite with cosh(part) = inf; for cos sin tan the special part is the real one,
+        // for cosh sinh tanh the imaginary one; both orientations are run (the "wrong" orientation has a finite cosh
+        // argument only if |part| is small, so only the overflow orientation is generated)
+        char const* want = kTrigFns[c.index - o_nfo];
+        Fn const* fn     = nullptr;
+        for (auto const& f : kFns) {
+            if (std::strcmp(f.op, want) == 0) { fn = &f; }
+        }
+        if (!fn) { return; }
+        x.stratum = "nonfinite-x-overflow";
+        if (!prepare(x, *fn)) { return; }
+        using L = std::numeric_limits<T>;
+        std::vector<T> big;
+        for (T v : trig_large()) {
+            if (fp::is_inf(std::cosh(v))) { big.push_back(v); }
+        }
+        for (T v : {std::ldexp(T(1.5), L::max_exponent / 2), std::ldexp(T(1.75), L::max_exponent - 2), std::nextafter(L::max(), T(0)), L::max()}) {
+            big.push_back(v);
+            big.push_back(-v);
+        }
+        for (T sp : {L::infinity(), -L::infinity(), L::quiet_NaN()}) {
+            for (T v : big) {
+                if (x.hyp_part == 2) {
+                    fn->call(x, sp, v, 0, 0);
+                } else {
+                    fn->call(x, v, sp, 0, 0);
+                }
+            }
+        }
     } else if (c.enumerated) {
         std::uint64_t const k = c.index - o_trig;
         char const* want      = kTrigFns[k / 2];
